@@ -25,7 +25,7 @@ RULE = ("three workloads over generated object dictionaries (variables, records,
 ASSUMPTIONS = ["0-byte CAN frames are outside the property (1..8)", "which abort code answers garbage is C06's business",
                "malformed (shorter than 8 bytes) client abort frames are not judged for the no-response rule",
                "expedited downloads without size indication are sent to 4-byte entries only"]
-REQUIRED = {"uploads_compared": 500, "downloads_compared": 200, "history_frames": 1000, "responses_validated": 3000}
+REQUIRED = {"application_refusals": 10, "uploads_compared": 500, "downloads_compared": 200, "history_frames": 1000, "responses_validated": 3000}
 EXHAUSTIVE = ["value lengths 0..64 for VISIBLE_STRING/OCTET_STRING/DOMAIN from the stored-data and default sources"]
 
 
@@ -48,8 +48,13 @@ class Harness:
         self.node = self.rig.node
         self.cb_values = {}
         self.write_log = []
-        self.node.add_read_callback(self._read_cb)
+        # three read callbacks serving disjoint entries (an application made of several modules), two write callbacks
+        self.node.add_read_callback(self._read_cb_even)
+        self.node.add_read_callback(self._read_cb_odd)
+        self.node.add_read_callback(self._read_cb_none)
         self.node.add_write_callback(self._write_cb)
+        self.node.add_write_callback(self._write_cb_refusing)
+        self.refuse_code = None        # when set, the application refuses the next written value with this abort code
         self.reported = 0
         self.model_store = {}          # (index, sub) -> bytes accepted by a completed download (reference model of data_store)
 
@@ -63,8 +68,20 @@ class Harness:
                                    case, self.rig.wire(16))
                 self.model_store[(index, sub)] = bytes(got) if got is not None else b""
 
-    def _read_cb(self, index, subindex, od, **kw):
-        return self.cb_values.get((index, subindex))
+    def _read_cb_even(self, index, subindex, od, **kw):
+        return self.cb_values.get((index, subindex)) if (index + subindex) % 2 == 0 else None
+
+    def _read_cb_odd(self, index, subindex, od, **kw):
+        return self.cb_values.get((index, subindex)) if (index + subindex) % 2 == 1 else None
+
+    def _read_cb_none(self, index, subindex, od, **kw):
+        return None
+
+    def _write_cb_refusing(self, index, subindex, od, data, **kw):
+        if self.refuse_code is not None:
+            from canopen.sdo.exceptions import SdoAbortedError
+            code, self.refuse_code = self.refuse_code, None
+            raise SdoAbortedError(code)
 
     def _write_cb(self, index, subindex, od, data, **kw):
         self.write_log.append((index, subindex, od, bytes(data)))
@@ -187,6 +204,36 @@ def one_download(ctx, h, rng, vm, data, mode, size_ind, seg_sizes, workload="dow
     h.flush_findings(case)
 
 
+def refused_by_application(ctx, h, rng, vm, mode):
+    """A write callback refuses a value (range or state check of the application): abort on the wire, nothing stored."""
+    client = h.rig.client
+    before = h.node.data_store.get(vm.index, {}).get(vm.sub)
+    data = download_payload(rng, vm.dt)
+    if mode == "expedited" and not 1 <= len(data) <= 4:
+        mode = "segmented"
+    code = rng.choice([0x06090030, 0x08000022, 0x06090031, 0x08000020])
+    case = {"workload": "refused-by-application", "index": vm.index, "sub": vm.sub, "type": R.NAMES[vm.dt], "data": data, "mode": mode,
+            "code": code}
+    ctx.case(("refused-by-application", R.NAMES[vm.dt], mode, lenclass(len(data))), nontrivial=True)
+    h.refuse_code = code
+    res = client.download(vm.index, vm.sub, data, mode=mode, size_indicated=True)
+    pending, h.refuse_code = h.refuse_code, None
+    ctx.count("application_refusals")
+    if pending is not None:
+        ctx.violation("write-callback-not-called", f"a download of {data!r} ended in {res} without the write callbacks being asked", case, h.rig.wire(12))
+    elif res[0] != "abort" or res[1] != code:
+        ctx.violation("application-refusal-not-reported", f"the application refused with {code:#010x} but the client saw {res}", case, h.rig.wire(12))
+    after = h.node.data_store.get(vm.index, {}).get(vm.sub)
+    if after != before:
+        ctx.violation("refused-download-stored", f"data_store went from {before!r} to {after!r} although the application refused the download", case, h.rig.wire(12))
+    if vm.access != "wo" and before is not None and (vm.index, vm.sub) not in h.cb_values:
+        res = client.upload(vm.index, vm.sub)
+        ctx.count("uploads_compared")
+        if res[0] != "ok" or res[1] != bytes(before):
+            ctx.violation("upload-after-refused-download", f"upload after a refused download gave {res}, the last accepted value is {bytes(before)!r}", case, h.rig.wire(12))
+    h.flush_findings(case)
+
+
 def downloads(ctx, h, rng):
     for o, vm in h.model.variables():
         if "w" not in vm.access:
@@ -204,6 +251,8 @@ def downloads(ctx, h, rng):
             if mode == "segmented" and rng.random() < 0.4 and len(data) > 1:
                 seg_sizes = [rng.randint(1, 7) for _ in range(len(data))]
             one_download(ctx, h, rng, vm, data, mode, size_ind, seg_sizes)
+            if rng.random() < 0.35:
+                refused_by_application(ctx, h, rng, vm, mode if mode != "expedited_nosize" else "expedited")
 
 
 # ----------------------------------------------------------------------------- (c) histories from a fresh node
